@@ -47,6 +47,9 @@ def target(qual, **kw):
 UNIVERSES = {
     'Yaql.Strings.Atom': dict(
         structural_eq=True,
+        is_const={'none': '(Yaql.PyStr.atomIsNone {0})', 'true': '(Yaql.PyStr.atomIsTrue {0})',
+                  'false': '(Yaql.PyStr.atomIsFalse {0})'},
+        str='(Yaql.PyStr.pyStr {0})',
         codec=('Yaql.Drv.SrcCodec.decAtom', 'Yaql.Drv.SrcCodec.encAtom'),
     ),
     'Nat': dict(structural_eq=True, codec=('Yaql.Drv.SrcCodec.decNat', 'Yaql.Drv.SrcCodec.encNat')),
@@ -58,7 +61,9 @@ UNIVERSES['Yaql.Value'] = dict(
     ops={'Eq': Prim('(Yaql.Value.pyEq {0} {1})', [VALUE, VALUE], BOOL),
          'NotEq': Prim('(!Yaql.Value.pyEq {0} {1})', [VALUE, VALUE], BOOL)},
     inject={'int': '(Yaql.Value.int {0})', 'bool': '(Yaql.Value.bool {0})', 'str': '(Yaql.Value.str {0})',
-            '[@Yaql.Value]': '(Yaql.Value.list {0})'},
+            '[@Yaql.Value]': '(Yaql.Value.list {0})', 'none': 'Yaql.Value.null'},
+    # a dict with yaql values as keys: lookups by python equality / hash
+    dict={'has': '(Yaql.Seq.dHas {0} {1})', 'get': '(Yaql.Seq.dGet {0} {1})'},
     codec=('Yaql.Drv.valOfJson', 'Yaql.Drv.valToJson'),
 )
 
@@ -75,6 +80,14 @@ py2lean.GLOBAL_PRIMS.update({
 py2lean.GLOBAL_CONSTS.update({
     'utils.NO_VALUE': ('none', NONE),          # the "no value" sentinel is the `none` of an Option
 })
+
+def _hashable(v):
+    try:
+        hash(v)
+        return True
+    except TypeError:
+        return False
+
 
 def _is_int(v):
     return isinstance(v, int) and not isinstance(v, bool)
@@ -266,6 +279,26 @@ target(C + 'replace', area='Seq', owners=['C13'],
 target(C + 'replace_many', area='Seq', owners=['C13'],
        params=[('collection', VL), ('position', 'int'), ('values', VL), ('count', 'int')], ret=VL,
        model=SEQ + 'replaceMany position count values collection', theorem='replace_many_src_eq')
+KVD = '{@Yaql.Value: @Yaql.Value}'
+target(C + 'contains_key', area='Seq', owners=['C13'],
+       params=[('d', KVD), ('key', VALUE)], ret='bool', pre=lambda d, key: _hashable(key),
+       model=SEQ + 'containsKey d key', theorem='contains_key_src_eq')
+target(C + 'contains_value', area='Seq', owners=['C13'],
+       params=[('d', KVD), ('value', VALUE)], ret='bool',
+       model=SEQ + 'containsValue d value', theorem='contains_value_src_eq')
+target(C + 'dict_indexer_with_default', area='Seq', owners=['C13'],
+       params=[('d', KVD), ('key', VALUE), ('default', VALUE)], ret=VALUE, pre=lambda d, key, default: _hashable(key),
+       model=SEQ + 'dictGet d key default_', theorem='dict_indexer_with_default_src_eq')
+target(C + 'dict_get', area='Seq', owners=['C13'],
+       params=[('d', KVD), ('key', VALUE), ('default', VALUE)], ret=VALUE, pre=lambda d, key, default: _hashable(key),
+       model=SEQ + 'dictGet d key default_', theorem='dict_get_src_eq')
+target(C + 'dict_indexer', area='Seq', owners=['C13'], raises=True,
+       params=[('d', KVD), ('key', VALUE)], ret=VALUE, pre=lambda d, key: _hashable(key),
+       model='Yaql.Py.ofOption (Yaql.Seq.dGet d key) .keyError', theorem='dict_indexer_src_eq')
+target(C + 'dict_keys', area='Seq', owners=['C13'],
+       params=[('d', KVD)], ret=VL, model=SEQ + 'dictKeys d', theorem='dict_keys_src_eq')
+target(C + 'dict_values', area='Seq', owners=['C13'],
+       params=[('d', KVD)], ret=VL, model=SEQ + 'dictValues d', theorem='dict_values_src_eq')
 target(Q + 'index_of', area='Seq', owners=['C13'],
        params=[('collection', VL), ('item', VALUE)], ret='int',
        model=SEQ + 'indexOf item collection', theorem='index_of_src_eq')
@@ -497,6 +530,26 @@ target('yaql.language.runner:_is_specialization_of', area='Resolve', owners=['C0
        theorem='is_specialization_of_src_eq',
        note='holds when both mappings bind the same keyword names in the same order (both come from one call) and the '
             'names are distinct: hypotheses of the theorem')
+
+
+target(S + 'str_', area='Strings', owners=['C19'],
+       params=[('value', ATOM)], ret='str',
+       model='Yaql.Strings.strOf value', theorem='str_src_eq')
+
+# string repetition with its memory estimate: shared by C19 (value) and C08 (quota)
+area('StrRepeat', imports=['Yaql.Model.PyPrelude', 'Yaql.Model.Strings', 'Yaql.Model.Limits', 'Yaql.Gen.SrcLimits'],
+     uses=['Limits'], drv_imports=['Yaql.Gen.Sizes'], ambient_values=SIZES_VALUES)
+target(S + 'string_by_int', area='StrRepeat', owners=['C19', 'C08'], raises=True, ambient=SIZES,
+       params=[('left', 'str'), ('right', 'int'), ('engine', 'int')], ret='str',
+       pre=lambda left, right, engine: abs(right) < 2 ** 16,
+       model='if Yaql.Limits.stringByIntCheck sizes engine (Yaql.Limits.strClassOf (Yaql.Py.maxCp left)) left.length right '
+             'then .ok (Yaql.Strings.repeatStr left right) else .error (.other 1)', theorem='string_by_int_src_eq',
+       note='engine = the memory quota; repetition beyond 2^16 copies is outside the differential')
+target(S + 'int_by_string', area='StrRepeat', owners=['C19', 'C08'], raises=True, ambient=SIZES,
+       params=[('left', 'int'), ('right', 'str'), ('engine', 'int')], ret='str',
+       pre=lambda left, right, engine: abs(left) < 2 ** 16,
+       model='if Yaql.Limits.stringByIntCheck sizes engine (Yaql.Limits.strClassOf (Yaql.Py.maxCp right)) right.length left '
+             'then .ok (Yaql.Strings.repeatStr right left) else .error (.other 1)', theorem='int_by_string_src_eq')
 
 
 def by_area():
